@@ -726,6 +726,143 @@ impl<P: PathManager + Sync + Send + 'static> GenericScionUdpSocket for UdpScionS
     }
 }
 
+/// Verification hook (compiled only with `--cfg anapaya_scion_sdk_verif`): a
+/// [`PathUnawareUdpScionSocket`] over an in-memory underlay, wired with the stack's SCMP error
+/// handler exactly as [`ScionStack::bind_with_config`](crate::stack::ScionStack::bind_with_config)
+/// does, plus optional extra handlers.
+#[cfg(anapaya_scion_sdk_verif)]
+pub mod verif {
+    use std::{
+        collections::VecDeque,
+        io,
+        sync::{
+            Mutex,
+            atomic::{AtomicBool, Ordering},
+        },
+    };
+
+    use async_trait::async_trait;
+
+    use super::*;
+    use crate::stack::{
+        BoundUnderlaySocket, UnderlaySocket,
+        scmp_handler::{ScmpErrorHandler, ScmpErrorReceiver},
+    };
+
+    #[derive(Default)]
+    struct MemState {
+        rx: Mutex<VecDeque<Vec<u8>>>,
+        tx: Mutex<Vec<Vec<u8>>>,
+        send_fails: AtomicBool,
+    }
+
+    /// Test-side handle of the in-memory underlay.
+    #[derive(Clone, Default)]
+    pub struct MemUnderlayHandle(Arc<MemState>);
+
+    impl MemUnderlayHandle {
+        /// Queues `packet` for reception. Returns false (and queues nothing) if the bytes do not
+        /// decode as a raw SCION packet: an underlay only hands up decodable packets.
+        pub fn inject(&self, packet: &[u8]) -> bool {
+            if ScionRawPacketView::try_from_slice(packet).is_err() {
+                return false;
+            }
+            self.0
+                .rx
+                .lock()
+                .expect("poisoned")
+                .push_back(packet.to_vec());
+            true
+        }
+
+        /// Number of packets not yet received by the socket.
+        pub fn pending(&self) -> usize {
+            self.0.rx.lock().expect("poisoned").len()
+        }
+
+        /// Takes the packets sent by the socket so far.
+        pub fn take_sent(&self) -> Vec<Vec<u8>> {
+            std::mem::take(&mut *self.0.tx.lock().expect("poisoned"))
+        }
+
+        /// Makes `try_send` fail with `WouldBlock` (a full send queue).
+        pub fn set_send_fails(&self, fails: bool) {
+            self.0.send_fails.store(fails, Ordering::SeqCst);
+        }
+    }
+
+    struct MemUnderlay(Arc<MemState>);
+
+    #[async_trait]
+    impl UnderlaySocket for MemUnderlay {
+        fn try_send(&self, packet: &ScionRawPacketView) -> Result<(), ScionSocketSendError> {
+            if self.0.send_fails.load(Ordering::SeqCst) {
+                return Err(ScionSocketSendError::IoError(io::Error::from(
+                    io::ErrorKind::WouldBlock,
+                )));
+            }
+            self.0
+                .tx
+                .lock()
+                .expect("poisoned")
+                .push(packet.as_slice().to_vec());
+            Ok(())
+        }
+
+        async fn writeable(&self) {}
+
+        fn try_recv(&self, buf: &mut [u8]) -> Result<usize, ScionSocketReceiveError> {
+            match self.0.rx.lock().expect("poisoned").pop_front() {
+                Some(p) => {
+                    buf[..p.len()].copy_from_slice(&p);
+                    Ok(p.len())
+                }
+                None => {
+                    Err(ScionSocketReceiveError::IoError(io::Error::from(
+                        io::ErrorKind::WouldBlock,
+                    )))
+                }
+            }
+        }
+
+        async fn readable(&self) {
+            if self.0.rx.lock().expect("poisoned").is_empty() {
+                std::future::pending::<()>().await;
+            }
+        }
+    }
+
+    /// The stack's SCMP error handler over the given receivers (held weakly, as in the stack).
+    pub fn scmp_error_handler(receivers: &[Arc<dyn ScmpErrorReceiver>]) -> Box<dyn ScmpHandler> {
+        let subscribers = Subscribers::new();
+        for r in receivers {
+            subscribers.register(r.clone());
+        }
+        Box::new(ScmpErrorHandler::new(subscribers))
+    }
+
+    /// A path-unaware socket bound to `local_addr` over an in-memory underlay. Handlers: the
+    /// stack's SCMP error handler over `receivers`, followed by `extra_handlers`.
+    pub fn socket_over_memory(
+        local_addr: ScionSocketIpAddr,
+        receivers: &[Arc<dyn ScmpErrorReceiver>],
+        extra_handlers: Vec<Box<dyn ScmpHandler>>,
+    ) -> (PathUnawareUdpScionSocket, MemUnderlayHandle) {
+        let handle = MemUnderlayHandle::default();
+        let mut handlers = vec![scmp_error_handler(receivers)];
+        handlers.extend(extra_handlers);
+        let socket = PathUnawareUdpScionSocket::new(
+            BoundUnderlaySocket {
+                socket: Box::new(MemUnderlay(handle.0.clone())),
+                local_addr,
+                snap_data_plane: None,
+            },
+            handlers,
+        );
+        (socket, handle)
+    }
+}
+
 #[cfg(test)]
 mod cancel_safety_tests {
     //! Unit tests verifying that all async methods on [`UdpScionSocket`] and
